@@ -617,6 +617,44 @@ impl Bed {
         v
     }
 
+    /// Names what differs between two fingerprints taken with `fingerprint()`.
+    pub fn fingerprint_diff(&self, a: &[u64], b: &[u64]) -> String {
+        let mut out = vec![];
+        let mut i = 0;
+        for _ in &self.tcps {
+            if a[i] != b[i] {
+                out.push("tcp-state".to_string());
+            } else if a[i + 1] != b[i + 1] || a[i + 2] != b[i + 2] {
+                out.push("tcp-queues".to_string());
+            }
+            i += 3;
+        }
+        if self.udp.is_some() {
+            if a[i] != b[i] {
+                out.push("udp-queue".into());
+            }
+            i += 1;
+        }
+        if self.icmp.is_some() {
+            if a[i] != b[i] {
+                out.push("icmp-queue".into());
+            }
+            i += 1;
+        }
+        for _ in [self.raw4, self.raw6].into_iter().flatten() {
+            if a[i] != b[i] {
+                out.push("raw-queue".into());
+            }
+            i += 1;
+        }
+        if a[i] != b[i] {
+            out.push("interface-addresses".into());
+        }
+        out.sort();
+        out.dedup();
+        out.join("+")
+    }
+
     pub fn describe(&self) -> String {
         let mut s = format!("addrs={:?}", self.node.iface.ip_addrs().iter().map(|c| c.to_string()).collect::<Vec<_>>());
         for (k, t) in self.tcps.iter().enumerate() {
